@@ -283,6 +283,17 @@ fn oracle_c12(rep: &mut Report, case: &str, st: &StepTrees, gens: &[&Prepared]) 
         if let Some(p) = g.outs.keys().find(|p| !in_scope(p)) {
             rep.oracle_fail("generatedOutOfScope", vec![], case, &format!("generated path {p} is not a .rs file under src/ or examples/"));
         }
+        // convergence of content: a generated path whose prior file carried no directive holds exactly the fresh code afterwards,
+        // whatever was there before (longer, shorter, torn)
+        for (p, cs) in &g.outs {
+            let marked = before.get(p).map(|b| has(b, STATIC) || has(b, AFTER)).unwrap_or(false);
+            if marked { continue; }
+            let fresh = match cs { CodeSpec::Plain(c) => c, CodeSpec::Lib(full, _) => full };
+            match after.get(p) {
+                Some(x) if x.as_slice() == fresh.as_bytes() => rep.bump("c12_overwrite_fresh_ok"),
+                _ => rep.oracle_fail("overwriteNotFresh", vec![], case, &format!("generation {}: {p} does not hold exactly the freshly generated code", i + 1)),
+            }
+        }
     }
 }
 
